@@ -10,7 +10,7 @@ import numpy as np
 DIM_NAMES = ["x", "y", "z", "t", "u", "v"]
 STR_LABELS = ["a", "b", "c", "d", "e", "f", "g", "h"]
 INT_LABELS = list(range(-2, 11))
-FLOAT_LABELS = [k + 0.5 for k in range(-2, 11)]
+FLOAT_LABELS = [k + 0.5 for k in range(-2, 11)] + [3.0, 8.0]     # two whole numbers: 3.0 meets the integer label 3 in joins
 # extended universes, used only when more labels are asked for than the small universe holds ("big" runs)
 BIG_INT_LABELS = list(range(-2, 200))
 BIG_FLOAT_LABELS = [k + 0.5 for k in range(-2, 200)]
